@@ -73,7 +73,8 @@ Definition do_out (ob : dobs) : D.outcome := fst (fst ob).
 Definition do_after (ob : dobs) : amap := snd (fst ob).
 Definition do_nev (ob : dobs) : nat := snd ob.
 
-Inductive dop := DOp (o : D.op) | DAssign (is_dict : bool) (ps : list (Z * Z)).
+Inductive dop := DOp (o : D.op) | DAssign (is_dict : bool) (ps : list (Z * Z))
+| DUpdateKw (ps kw : list (Z * Z)).     (* update called with keyword arguments kw (and a mapping ps): update takes one positional argument only *)
 
 (* {key_validator(k): value_validator(v) for k, v in items}: the first rejection aborts *)
 Fixpoint vld_pairs (kv vv : Z -> option Z) (ps : list (Z * Z)) : option (list (Z * Z)) :=
@@ -99,6 +100,7 @@ Definition dict_step (kv vv : Z -> option Z) (m : amap) (o : dop) : dobs :=
         | None => (D.Raise D.TraitError, m, 0%nat)
         end
       else (D.Raise D.TraitError, m, 0%nat)
+  | DUpdateKw _ _ => (D.Raise D.TypeError, m, 0%nat)    (* trait_dict_object.py l.244 `def update(self, other)` *)
   end.
 
 Fixpoint dict_run kv vv (m : amap) (ops : list dop) : list (dop * dobs) :=
@@ -323,7 +325,7 @@ Definition op_method (o : op) : string :=
   | SetInt _ _ | SetSlice _ _ | SetSliceN _ => "__setitem__" | DelInt _ | DelSlice _ => "__delitem__"
   | Append _ => "append" | Extend _ | ExtendN => "extend" | Iadd _ => "__iadd__" | Imul _ | ImulQ _ _ => "__imul__"
   | Insert _ _ | InsertX _ _ => "insert" | Pop _ | PopX _ => "pop" | ImulX _ => "__imul__" | Remove _ => "remove" | Reverse => "reverse"
-  | Sort _ _ => "sort" | Clear => "clear"
+  | Sort _ _ | SortPos => "sort" | Clear => "clear"
   end.
 Definition list_mutators : list string :=
   ["__delitem__"; "__iadd__"; "__imul__"; "__setitem__"; "append"; "clear"; "extend"; "insert"; "pop";
